@@ -74,10 +74,35 @@ var c14Values = map[string][2]c14Val{
 
 // c14ValOf: value 0/1 of the table; value 2 = the empty text (text keys only: "Key=" on the line, '' in the file)
 func c14ValOf(k string, idx int) c14Val {
+	if idx >= 10 {
+		return c14DomainVals(k)[idx-10]
+	}
 	if idx == 2 {
 		return c14Val{"''", "", ""}
 	}
 	return c14Values[k][idx]
+}
+
+// c14DomainVals: further values of a numeric key (index 10+i): every documented method number of the method keys, and the
+// ends and the middle of the meaningful range of the other numeric keys. Values outside a key's meaningful range are not
+// enumerated: replacing an invalid value by a default would not contradict the statement.
+var c14Domain = map[string][]float64{
+	"ETpot": {1, 2, 3, 4, 5}, "CO2method": {1, 2, 3}, "PTF": {0, 1, 2, 3, 4}, "WeatherFileFormat": {0, 1, 2}, "ResultFileFormat": {0, 1},
+	"InitSelection": {1, 2, 3, 4}, "PotMineralisation": {0, 1, 2}, "ManagementEvents": {0, 1, 2}, "DivideCentury": {0, 1, 50, 99},
+	"OutputIntervall": {0, 1, 2, 5, 30, 365}, "LeachingDepth": {1, 2, 5, 10, 15, 19, 20}, "GroundWaterPhase": {0, 1, 80, 180, 365},
+	"StartYear": {1901, 1950, 2000, 2099}, "WeatherNumHeader": {1, 2, 3, 4},
+	"WeatherNoneValue": {-99.9, -9999, 9999}, "AnnualAverageTemperature": {-5.5, 0, 25}, "CO2concentration": {280, 1000.5}, "NDeposition": {0, 100.5},
+	"Latitude": {-89.5, 0, 89.5}, "Altitude": {-10, 0, 4000.5}, "CoastDistance": {0, 1000}, "OrganicMatterMineralProportion": {0, 0.5, 1},
+	"KcFactorBareSoil": {0, 1.5}, "Fertilization": {0, 0.5, 300},
+}
+
+func c14DomainVals(k string) []c14Val {
+	var out []c14Val
+	for _, v := range c14Domain[k] {
+		s := fmt.Sprint(v)
+		out = append(out, c14Val{s, s, s})
+	}
+	return out
 }
 
 // c14TextKeys: keys of text kind (an empty value is a value)
@@ -150,6 +175,24 @@ func c14Specs(tier string, seed int) []c14Spec {
 			c14Case{File: map[string]int{k: 2}},
 			c14Case{File: map[string]int{k: 2}, Line: map[string]int{k: 1}},
 			c14Case{Line: map[string]int{k: 2}, NoFile: true})
+		out = append(out, sp)
+	}
+	// numeric keys: the further values of the domain from each source, and over/under a standard value of the other source
+	for _, k := range keys {
+		n := len(c14DomainVals(k))
+		if n == 0 {
+			continue
+		}
+		sp := c14Spec{Kind: "single", Key: k + " (domain)"}
+		for i := 0; i < n; i++ {
+			sp.Cases = append(sp.Cases,
+				c14Case{Line: map[string]int{k: 10 + i}},
+				c14Case{File: map[string]int{k: 10 + i}},
+				c14Case{File: map[string]int{k: i % 2}, Line: map[string]int{k: 10 + i}},
+				c14Case{File: map[string]int{k: 10 + i}, Line: map[string]int{k: 1 - i%2}},
+				c14Case{File: map[string]int{k: 10 + (i+1)%n}, Line: map[string]int{k: 10 + i}},
+				c14Case{Line: map[string]int{k: 10 + i}, NoFile: true})
+		}
 		out = append(out, sp)
 	}
 	// (2) all unordered pairs of keys x 9 source combinations (absent/file/line each)
